@@ -103,7 +103,6 @@ def shipped_unit(fname, rec, limit=None, only=None, seed=1):
     import decaylanguage
     from decaylanguage import DecFileParser
 
-    sys.setrecursionlimit(20000)
     path = Path(decaylanguage.__file__).parent / "data" / fname
     p = DecFileParser(str(path))
     with impl(ID, "parse-shipped"), warnings.catch_warnings():
